@@ -23,6 +23,12 @@ CHECKS = {
  'C05': dict(cat='exploration', tech='static instruction-graph checks + ' + SYMX + ' with a control-flow monitor',
    text='Per program shape (routine definitions at every top-level position and inside if/else/repeat/while bodies, exhaustively from a small grammar; plus seeded general, routine and loop shapes): statically, for every JUMP of the loaded image, target in range, in the same routine/main segment, never a routine header, and the same instruction object as in the parser listing (loader invariance), every JSR names a loaded routine; dynamically, on every feasible path with symbolic conditions, pc is inside a routine body exactly while that routine is active, and at exit the call stack is at the root frame, the evaluation stack is empty and pc is at the end.',
    note='Static part is all-paths by construction; dynamic part bounded by loop counts <=3 and paths per shape. Reads Machine internals (_reg.pc, _call_stack, _vm_math._eval_stack) from the harness process.', ref='4/C05'),
+ 'C15': dict(cat='exploration', tech=SYMX + '; oracle = reference interpreter',
+   text='Seeded addressing programs (zone ranges; inline row/column in either order; begin/stage/end blocks with up to 3 stages or a staging loop; optional saved default; logical/raw/rgb units; bounds as symbolic literals, variables, expressions, loop indices) on matrices 3x3, 2x4, 1x1 (thorough: 6x5, 4x2): the single tile message per set and the zone message are compared cell by cell and component by component with the reference semantics on every feasible path.',
+   note='Bounds within the device size; <=3 stages; 8 zones. Cell colours use the same nearest-integer rule as C07.', ref='4/C15'),
+ 'C18': dict(cat='exploration', tech=SYMX + '; symbolic numbers carried through generated text by a format hook',
+   text='For each population (plain, multizone, matrix and mixes, names with spaces/punctuation/keywords) every raw component of every light, zone and cell at capture time and at replay time is a symbolic integer 0..65535 and power a choice; the text produced by the real ScriptSnapshot is compiled by the real parser and executed by the real VM, and z3 shows the resulting device state equals the captured state component-wise.',
+   note='<=4 lights, matrices <=2x2 quick / 6x5 thorough, <=8 zones; light names from a fixed pool (string-level claim: C16).', ref='4/C18'),
 }
 PENDING = {
 }
